@@ -216,7 +216,7 @@ PROPS = {
         'full_pairs': (12, 150),                     # two-thread histories whose (k1, k2) preemption pairs are all enumerated
         # concurrent rebuilds of existing outputs followed by a rollback: profile, histories q/t, singles q/t (0 = all),
         # pairs q/t, fully enumerated histories q/t
-        'thread_extra': [('threadsrb', 40, 500, 0, 0, 2, 10, 2, 30), ('threadsq', 60, 600, 8, 0, 2, 8, 4, 40)],
+        'thread_extra': [('threadsrb', 40, 500, 0, 0, 2, 10, 2, 30), ('threadsq', 60, 600, 8, 0, 2, 8, 6, 40)],
         'units': [('regress', 0, 0)],
         'owned': set(CLAUSE_OWNER) | {'NoDeadlock', 'LockOrderAcyclic', 'LockOrderDocumented', 'LockOrderSameRole'},
         'nontrivial': lambda st, sc: any(x.get('s') == 'par' and (x.get('preempt') or x.get('rseed') is not None)
